@@ -47,6 +47,23 @@ def run(ck):
             b = bytearray(pv); b[first_pt + 97 + off:first_pt + 97 + off + 48] = (limbs + mutate.P381).to_bytes(48, "little")
             addm("prover", [(f"raw commit-key point: {which} limbs + p (non-reduced)", bytes(b))])
     b = bytearray(pv); b[first_pt + 97 + 48] ^= 1; addm("prover", [("raw commit-key point off curve", bytes(b))])
+    # raw commit-key points that are on the curve but not in the subgroup: one alone; a small-order point and its
+    # negative (their sum is the identity); two key points shifted by +T and -T (the sum of all points is unchanged);
+    # three copies of the order-3 point (0, 2)
+    npts = (ck_len - 8) // 97
+    def put(bb, idx, pt): bb[first_pt + 97 * idx:first_pt + 97 * idx + 97] = mutate.g1_raw(pt)
+    def key_pt(idx): return mutate.g1_unraw(pv[first_pt + 97 * idx:first_pt + 97 * idx + 97])
+    for rep in range(2 if quick else 12):
+        T = mutate.g1_torsion_point(rng)
+        i = rng.randrange(npts); j = (i + 1 + rng.randrange(npts - 2)) % npts; k3 = next(q for q in range(npts) if q not in (i, j))
+        b = bytearray(pv); put(b, i, mutate.g1_random_curve_point(rng)); addm("prover", [("raw commit-key point on the curve, not in the subgroup (one point)", bytes(b))])
+        b = bytearray(pv); put(b, i, T); addm("prover", [("raw commit-key point := small-order point, not in the subgroup (one point)", bytes(b))])
+        b = bytearray(pv); put(b, i, T); put(b, j, mutate.g1_neg(T)); addm("prover", [("raw commit-key points := T and -T, not in the subgroup (their sum is the identity)", bytes(b))])
+        b = bytearray(pv); put(b, i, mutate.g1_add(key_pt(i), T)); put(b, j, mutate.g1_add(key_pt(j), mutate.g1_neg(T)))
+        addm("prover", [("raw commit-key points P_i + T and P_j - T, not in the subgroup (the sum of all points is unchanged)", bytes(b))])
+        b = bytearray(pv)
+        for idx in (i, j, k3): put(b, idx, (0, 2))
+        addm("prover", [("raw commit-key: three copies of the order-3 point (0, 2), not in the subgroup (they sum to the identity)", bytes(b))])
     for nm, enc in mutate.g1_compressed_specials(rng):
         b = bytearray(pv); b[vk_off + 8:vk_off + 56] = enc; addm("prover", [(f"verifier-key commitment := {nm}", bytes(b))])
     # ---- verifier
@@ -145,7 +162,7 @@ def run(ck):
             ck.violation(f"compressed description accepted although malformed: {desc}", ctx, key=f"compressed-accepts:{desc.split(':=')[0].strip()}")
     ck.notes.append(f"accepted mutants per decoder: {accepted}")
     return ck.finish(level="proof",
-        rule="structure-aware mutation of valid encodings of prover, verifier, proof, public parameters and compressed circuit: bit flips, every header length field to extremes and +-1, inner little-endian length fields, truncation/extension/splices, hand-built invalid G1 encodings (identity, x>=p, off curve, outside the subgroup, flag bytes), non-canonical scalars, raw commit-key flag bytes and non-reduced limbs, re-packed MessagePack/deflate payloads (excess counts, out-of-range indices, trailing bytes inside and after the stream, bombs); checked build (debug assertions, overflow checks), catch_unwind, counting allocator; every accepted value is used once",
+        rule="structure-aware mutation of valid encodings of prover, verifier, proof, public parameters and compressed circuit: bit flips, every header length field to extremes and +-1, inner little-endian length fields, truncation/extension/splices, hand-built invalid G1 encodings (identity, x>=p, off curve, outside the subgroup, flag bytes), non-canonical scalars, raw commit-key flag bytes, non-reduced limbs and on-curve points outside the subgroup (alone, and in groups whose torsion components cancel), re-packed MessagePack/deflate payloads (excess counts, out-of-range indices, trailing bytes inside and after the stream, bombs); checked build (debug assertions, overflow checks), catch_unwind, counting allocator; every accepted value is used once",
         assumptions=["model-level totality is by construction; absence of panics and allocation bounds are established on the real decoders by the run", "memory safety and termination of the Rust binary are outside the model (time-outs enforced by the harness)"],
         checker_cmd=proofgate.CHECKER_CMD, trusted_base=proofgate.TRUSTED)
 
